@@ -243,6 +243,11 @@ var argVariants = []string{"plain", "zero-empty", "negative", "whole-or-same"}
 
 func invoke(f *ociregistry.Funcs, m int, ctx context.Context, salt, variant int) result {
 	repo := fmt.Sprintf("repo/%d/%d", m, salt)
+	if variant != 0 && salt%3 == 0 {
+		// names are opaque to the table: nothing in them may be interpreted (format verbs, separators,
+		// the catalog pseudo-name, bytes that are not UTF-8, no name at all)
+		repo = []string{"100%", "x%v/y%d", "%s", "a%!b(MISSING)", "*", "r\xffepo", "", "a: b: c", "%w"}[(salt/3)%9]
+	}
 	dig := ociregistry.Digest(fmt.Sprintf("sha256:%064x", salt+77))
 	tag := fmt.Sprintf("tag%d", salt)
 	// pick(plain, zero-empty, negative, whole-or-same)
